@@ -418,6 +418,9 @@ class OptV(Val):
   def call(self, ctx, args, kwargs):
     return ctx.engine.call_value(ctx, self._need(ctx, 'call'), args, kwargs)
 
+  def method(self, ctx, name, args, kwargs):
+    return ctx.engine.call_method(ctx, self._need(ctx, 'attr ' + name), name, args, kwargs)
+
   def getitem(self, ctx, idx):
     return ctx.engine.getitem(ctx, self._need(ctx, 'subscript'), idx)
 
